@@ -170,4 +170,31 @@ theorem runTx_single : ∀ (txs : List (List Op)) (s : St), SingleMsg txs → ru
       simp only [runTx, List.foldl_cons, txStep_single, List.flatten_cons, List.singleton_append, run]
       exact runTx_single ts _ hts
 
+theorem coveredB_sound {s : St} (h : coveredB s = true) (ra : Nat) : DescsCovered s ra := by
+  intro ht d hg
+  obtain ⟨hmem, hra, hh⟩ := getDesc_mem hg
+  unfold coveredB at h
+  have hd := List.all_eq_true.1 h d hmem
+  rw [hra] at hd
+  cases hr : Core.getRa s.core ra with
+  | none => simp [hr] at hd
+  | some r =>
+    simp only [hr] at hd
+    obtain ⟨st, hst, hb⟩ := List.any_eq_true.1 hd
+    simp only [Bool.and_eq_true, decide_eq_true_eq] at hb
+    exact ⟨r, st, rfl, hst, by omega, by omega⟩
+
+/-- every state along the run satisfies the executable coverage check -/
+def CoveredRun : St → List Op → Prop
+  | s, [] => coveredB s = true
+  | s, op :: ops => coveredB s = true ∧ CoveredRun (step s op).1 ops
+
+theorem safeRun_of_covered : ∀ (ops : List Op) (s : St), CoveredRun s ops → SafeRun s ops
+  | [], _, _ => trivial
+  | op :: ops, s, h => by
+    refine ⟨?_, safeRun_of_covered ops _ h.2⟩
+    cases op with
+    | setCanonical c => exact fun cl _ => coveredB_sound h.1 cl.chain
+    | _ => trivial
+
 end DymVerif.LC
